@@ -13,13 +13,9 @@ src, dest, w, wo, first = sys.argv[1:6]
 after = sys.argv[6] if len(sys.argv) > 6 else None
 root = os.path.join(os.path.dirname(os.path.dirname(os.path.abspath(__file__))), "seeded", dest)
 os.makedirs(root, exist_ok=True)
-for name in os.listdir(src):
-    p = os.path.join(src, name)
-    if os.path.isdir(p):
-        for n2 in os.listdir(p):
-            shutil.copy(os.path.join(p, n2), os.path.join(root, n2))
-    else:
-        shutil.copy(p, os.path.join(root, name))
+for d, _, files in os.walk(src):
+    for name in files:
+        shutil.copy(os.path.join(d, name), os.path.join(root, name))
 mp = os.path.join(root, "meta.json")
 try:
     meta = json.load(open(mp))
